@@ -86,7 +86,7 @@ func newExec(prog *ssa.Program, cfg Config, sol *Portfolio) *Exec {
 		poolState: map[*Cell][]Value{}, funcsSeen: map[*ssa.Function]bool{},
 		intrinUsed: map[string]bool{}, opaque: map[string]interface{}{},
 		replaceFn: map[string]*ssa.Function{},
-		decStr:    map[*Arr]decInfo{}, strMeta: map[*Arr]*fmtRecord{}, strPieces: map[*Arr][]*StrV{}, symCache: map[int][]string{}, bigInts: map[*Cell]*bigVal{}, absMemo: map[int]*Term{},
+		decStr:    map[*Arr]decInfo{}, strMeta: map[*Arr]*fmtRecord{}, strPieces: map[*Arr][]*StrV{}, symCache: map[int][]string{}, bigInts: map[*Cell]*bigVal{}, absMemo: map[int]*Term{}, valuesMeta: map[*Arr]*valuesSnap{}, urlMeta: map[*Arr][]*StrV{},
 	}
 	e.resetOpaque()
 	return e
